@@ -145,6 +145,9 @@ def check(ctx):
             targets = b.calls_to(f"{IMP}::Importer::run_commit_result", f"{IMP}::Importer::run_prepare_import_result")
             ctx.expect_sites(f"5.{entry}-has-work", targets, at_least=1, what=f"command submissions in Importer::{entry}")
             ctx.after_ok(f"5.{entry}-locked", lock, targets, detail=f"Importer::{entry} submits work only while holding the import lock")
+            ctx.held_across(f"5.{entry}-lock-held-until-done", lock, targets, "tokio::sync::SemaphorePermit",
+                            detail=f"the permit taken by Importer::{entry} is kept (bound to a named guard) until the submitted work has returned: "
+                                   "prepare and commit of one block cannot interleave with another import")
         lb = ctx.body_with(f"{IMP}::Importer::lock", "tokio::sync::batch_semaphore::Semaphore::try_acquire", "tokio::sync::semaphore::Semaphore::try_acquire")
         tr = lb.calls_to("tokio::sync::semaphore::Semaphore::try_acquire")
         ctx.expect_sites("5.try-acquire", tr, exactly=1, what="try_acquire in Importer::lock")
